@@ -1058,23 +1058,23 @@ func drawCase(rt *rapid.T) Case {
 		c.Workers = rapid.IntRange(2, 8).Draw(rt, "workers")
 	}
 	c.FailFirst = rapid.Bool().Draw(rt, "failfirst")
-	nr := rapid.IntRange(1, 8).Draw(rt, "nrules")
-	topKind := rapid.IntRange(0, nRuleKinds-1).Draw(rt, "topkind")
+	// rapid prefers the first elements / small numbers: the common shapes come first
+	nr := rapid.SampledFrom([]int{3, 4, 5, 2, 6, 7, 8, 3, 4, 5, 2, 6, 7, 8, 4, 1}).Draw(rt, "nrules")
+	topKind := rapid.SampledFrom([]int{1, 2, 3, 1, 2, 3, 1, 2, 3, 0}).Draw(rt, "topkind")
 	for i := 0; i < nr; i++ {
-		r := RuleSpec{
-			Kind: rapid.IntRange(0, topKind).Draw(rt, "kind"),
+		// the first rule is on the root kind, the second on the deepest one
+		kind := 0
+		if i == 1 {
+			kind = topKind
+		} else if i > 1 {
+			kind = rapid.IntRange(0, topKind).Draw(rt, "kind")
+		}
+		c.Rules = append(c.Rules, RuleSpec{
+			Kind: kind,
 			Prio: rapid.IntRange(0, maxPrio).Draw(rt, "prio"),
 			Fail: rapid.IntRange(0, 3).Draw(rt, "fail") == 0,
 			Spin: rapid.IntRange(0, 2).Draw(rt, "spin"),
-		}
-		na := rapid.IntRange(0, 4).Draw(rt, "nadds")
-		for j := 0; j < na; j++ {
-			r.Adds = append(r.Adds, Add{
-				Kind: rapid.IntRange(r.Kind+1, nKinds-1).Draw(rt, "akind"),
-				Prio: rapid.IntRange(0, maxPrio).Draw(rt, "aprio"),
-			})
-		}
-		c.Rules = append(c.Rules, r)
+		})
 	}
 	by := rulesByKind(c.Rules)
 	var kinds []int
@@ -1083,13 +1083,38 @@ func drawCase(rt *rapid.T) Case {
 			kinds = append(kinds, k)
 		}
 	}
+	for i := range c.Rules {
+		r := &c.Rules[i]
+		// deeper kinds with / without a rule
+		var trig, non []int
+		for k := r.Kind + 1; k < nKinds; k++ {
+			if len(by[k]) > 0 {
+				trig = append(trig, k)
+			} else {
+				non = append(non, k)
+			}
+		}
+		na := rapid.IntRange(0, 4).Draw(rt, "nadds")
+		if na == 0 && len(trig) > 0 && rapid.IntRange(0, 3).Draw(rt, "leaf") < 3 {
+			na = rapid.IntRange(1, 4).Draw(rt, "nadds1")
+		}
+		for j := 0; j < na; j++ {
+			ad := Add{Prio: rapid.IntRange(0, maxPrio).Draw(rt, "aprio")}
+			if len(trig) > 0 && rapid.IntRange(0, 3).Draw(rt, "atrig") < 3 {
+				ad.Kind = rapid.SampledFrom(trig).Draw(rt, "akind")
+			} else {
+				ad.Kind = rapid.SampledFrom(non).Draw(rt, "anon")
+			}
+			r.Adds = append(r.Adds, ad)
+		}
+	}
 	nroots := 1
 	if rapid.IntRange(0, 2).Draw(rt, "multiroot") == 0 {
 		nroots = rapid.IntRange(2, 3).Draw(rt, "nroots")
 	}
 	for i := 0; i < nroots; i++ {
 		// mostly the lowest kind with a rule (deepest cascade)
-		if rapid.IntRange(0, 3).Draw(rt, "rootlow") > 0 {
+		if rapid.IntRange(0, 3).Draw(rt, "rootlow") < 3 {
 			c.Roots = append(c.Roots, kinds[0])
 		} else {
 			c.Roots = append(c.Roots, rapid.SampledFrom(kinds).Draw(rt, "rootkind"))
